@@ -632,6 +632,9 @@ func runClassFile() {
 			}
 			// (2) behaviour: class project vs Go twin (the property), XGo twin and model as further voters
 			switch {
+			case a != g && c.Shadow && lastLine(a) != lastLine(g):
+				// the package-level variable named like field 1 was modified by the class's methods
+				set(5, "viol", "behaviour:package-var-shadows-field", fmt.Sprintf("class-file program printed\n%s\nexplicit-struct twin (Go tool chain) printed\n%s\n%s", a, g, text))
 			case a != g:
 				set(5, "viol", "behaviour:class-vs-go-twin:"+firstDiffTag(a, g), fmt.Sprintf("class-file program printed\n%s\nexplicit-struct twin (Go tool chain) printed\n%s\n%s", a, g, text))
 			case okB && a != b:
@@ -651,6 +654,11 @@ func runClassFile() {
 		hlib.Emit(res)
 	}
 	emitSummary()
+}
+
+func lastLine(s string) string {
+	ls := strings.Split(strings.TrimRight(s, "\n"), "\n")
+	return ls[len(ls)-1]
 }
 
 func sameSet(a, b []string) bool {
